@@ -53,6 +53,10 @@ CHECKS["C15"] = ("E1-enum", "exploration",
   "Bounded-exhaustive differential check of the two filter evaluators: every expression string with <=3 (thorough 4) leaves over 3 keys with and/or/juxtaposition/parentheses, quoted keys and a key with a space, x every assignment of key subsets to the 3 blocks of a segment; bitmap evaluation vs per-block keys evaluation, BlockIndex.Skip vs SkipFromKeys, index.File save/load, repeated evaluation and non-mutation of the shared index.",
   "Whole-system half (index absent / being built / present) is exercised by the runs of the index program in C01/C07 once those exist.",
   "bounded exhaustive enumeration of expressions x key assignments, differential between the two real evaluators", "3/C15")
+CHECKS["C04"] = ("E3-sysrun", "exploration",
+  "Bounded-exhaustive over request configurations on the whole system (real Tier1Service.blocks, real Tier2Service.processRange in-process, real hashes, scripted modules): mode x segment size x module initial blocks x start x stop x final block on three programs; range, order, duplicates, gaps at the hand-off, cursors, and a resumed request from the cursor of every delivered final block compared with the original suffix.",
+  "Goroutine timing inside one request is not controlled (E2 does that for the scheduler); one effective worker; fork-free chain; derr back-off and dstore zstd options overlaid for speed.",
+  "bounded exhaustive enumeration of configurations, each executed on the real tier1+tier2 implementation", "3/C04")
 PENDING = {}
 def main():
     checks = []
@@ -83,6 +87,7 @@ def main():
         },
         "engines": [
             {"name": "E4-histx", "path": "harness/histx", "serves_properties": ["C11", "C03"], "kind_free_text": "explicit-state BFS over store histories, successors by replay on a fresh real store"},
+            {"name": "E3-sysrun", "path": "harness/sysrun", "serves_properties": ["C01", "C03", "C04", "C07", "C15", "C16"], "kind_free_text": "whole-system runner: real tier1 + in-process real tier2 on scripted WASM modules, deterministic block source, prepared cache directory"},
             {"name": "E1-enum", "path": "harness/core", "serves_properties": [p for p in ALL if p in CHECKS and CHECKS[p][0]=="E1-enum"], "kind_free_text": "bounded-exhaustive enumerator over the real functions, 16-way parallel"},
         ],
         "checks": checks,
